@@ -621,6 +621,32 @@ def _execute_after_prelude(check, cand, ctx):
 hd_ctx = (0, 'quick')
 
 
+def minimise_crash(check, case, outd, tier, verif_seed, budget=40, wall=150):
+    """shrink a case whose execution kills the process: every candidate is replayed in a
+    fresh process (bounded: a crash is already a complete finding, smaller is a courtesy)"""
+    t0 = time.time()
+    cur = case
+    execs = 0
+    progress = True
+    while progress and execs < budget and time.time() - t0 < wall:
+        progress = False
+        for cand in check.shrink_candidates(cur):
+            if execs >= budget or time.time() - t0 > wall:
+                break
+            execs += 1
+            p = write_replay(check, cand, outd, tier, verif_seed, tag='crash-cand')
+            st, _ = replay_in_fresh_process(check, p, timeout=60)
+            if st == 'crash':
+                cur = cand
+                progress = True
+                break
+    try:
+        os.unlink(os.path.join(VERIF, 'replays', '%s-%s-crash-cand.json' % (check.pid, case.get('run_index', 'x'))))
+    except OSError:
+        pass
+    return cur, execs
+
+
 def minimise_in_child(check, case, outd, timeout=300):
     """The driver never executes the code under test in its own process: minimisation runs
     in a forked child, so that a crash while shrinking cannot take the verdict with it."""
@@ -783,6 +809,12 @@ def main_check(check, tier, verif_seed):
         path = write_replay(check, case, outd, tier, verif_seed, tag='crash')
         st, text = replay_in_fresh_process(check, path)
         if st == 'crash' and check.crash_clause:
+            small, execs = minimise_crash(check, case, outd, tier, verif_seed)
+            if small is not case:
+                path = write_replay(check, small, outd, tier, verif_seed, tag='crash-min',
+                                    minimised=dict(from_size=check_size(case), to_size=check_size(small),
+                                                   reexecutions=execs))
+                case = small
             violations.append((case, outd, path))
         elif st == 'violation':
             violations.append((case, outd, path))
